@@ -111,7 +111,7 @@ def run(tier, seed):
     thorough = tier == "thorough"
     tmp = H.subdir("c10files")
     import supcommon as S
-    mets = (S.SYM_METRICS_UNDECORATED + S.POSITIVE_METRICS) if thorough else ["euclidean", "log_squared_euclidean", "manhattan", "canberra", "chi_squared", "squared_chord", "chebyshev", "jensen_shannon", "pearson", "kullback_leibler"]
+    mets = (S.SYM_METRICS_UNDECORATED + S.POSITIVE_METRICS) if thorough else ["euclidean", "log_squared_euclidean", "manhattan", "canberra", "chi_squared", "squared_chord", "chebyshev", "jensen_shannon", "pearson", "kullback_leibler", "gaussian"]
     if thorough:
         mets = mets + ["pearson", "neyman", "kullback_leibler", "k_divergence", "statistic", "cosine", "gaussian", "bhattacharyya"]   # C10 needs no symmetry
     sessions = []
